@@ -314,10 +314,9 @@ func mkConv(to types.Type, x *Expr) *Expr {
 			preserving = true
 		}
 		if preserving {
-			// keep the term, change only the static type
-			c := *x
-			c.Typ = to
-			return &c
+			// the term denotes the mathematical integer: keep it (and its
+			// narrower static type, which bounds its range)
+			return x
 		}
 		return mk("conv", to, types.TypeString(to, nil), 0, x)
 	}
